@@ -238,8 +238,8 @@ def trans(chk, P):
     pfi = I.module_global(mod, "PotentialFormInstanceTuple")
     first = I.call(pfi, [Const("as.buck"), ListV([], "list"), NONE, NONE], {})
     second = I.call(pfi, [Const("as.constant"), ListV([Num(ep.sym("X"))], "list"), NONE, NONE], {})
-    fi = P.func("atsim.potentials._modifiers", "trans")
-    t = I.run(fi, [ListV([first, second], "list"), PyObjV(_Builder())])
+    fi = F.modifier_ref(P, "trans")
+    t = fi.call(I, [ListV([first, second], "list"), PyObjV(_Builder())])
     r = Num(ep.sym("r"))
     v = I.num(I.call(t, [r], {}))
     d1 = I.num(I.call(I.getattr(t, "deriv"), [r], {}))
